@@ -63,10 +63,12 @@ TAG_MAP.update(
 TYPE_MAP = decoder.TYPE_MAP.copy()
 
 # Put in non-ambiguous types for faster codec lookup
+# The by-type map is consulted first when a guiding type is given: it must
+# hold the same (stricter) codecs as the by-tag map, not the BER ones
 for typeDecoder in TAG_MAP.values():
     if typeDecoder.protoComponent is not None:
         typeId = typeDecoder.protoComponent.__class__.typeId
-        if typeId is not None and typeId not in TYPE_MAP:
+        if typeId is not None:
             TYPE_MAP[typeId] = typeDecoder
 
 
